@@ -62,7 +62,50 @@ func c06TTLUnits(c *Ctx, r *Report) {
 		}
 	})
 	var problems []string
-	if total == nil || best < 3 {
+	// the units in a table built once (unit letter -> seconds): one arm, total += digits * table[letter]
+	tableOf := func(other ssa.Value) map[int64]int64 {
+		mul, ok := other.(*ssa.BinOp)
+		if !ok || mul.Op != token.MUL {
+			return nil
+		}
+		for _, side := range []ssa.Value{mul.X, mul.Y} {
+			ex, ok := side.(*ssa.Extract)
+			if !ok || ex.Index != 0 {
+				continue
+			}
+			lk, ok := ex.Tuple.(*ssa.Lookup)
+			if !ok {
+				continue
+			}
+			ld, ok := lk.X.(*ssa.UnOp)
+			if !ok {
+				continue
+			}
+			g, ok := ld.X.(*ssa.Global)
+			if !ok {
+				continue
+			}
+			if _, entries, ok := constMapEntries(fn.Pkg, g); ok {
+				return entries
+			}
+		}
+		return nil
+	}
+	hasTable := false
+	if total != nil {
+		for _, e := range phiLeavesWithin(total) {
+			if b, ok := e.(*ssa.BinOp); ok && b.Op == token.ADD && (b.X == total || b.Y == total) {
+				other := b.Y
+				if b.Y == total {
+					other = b.X
+				}
+				if tableOf(other) != nil {
+					hasTable = true
+				}
+			}
+		}
+	}
+	if total == nil || (best < 3 && !hasTable) {
 		r.undecided("C06.R3.ttl-units", "stringToTTL", c.pos(fn.Pos()), "no running total with unit arms recognised in stringToTTL")
 		return
 	}
@@ -95,6 +138,16 @@ func c06TTLUnits(c *Ctx, r *Report) {
 			other := b.Y
 			if b.Y == total {
 				other = b.X
+			}
+			if tbl := tableOf(other); tbl != nil {
+				for key, v := range tbl {
+					if key > 0 && key < 128 {
+						got[byte(key)] = v
+					} else {
+						problems = append(problems, fmt.Sprintf("unexpected unit %d in the unit table", key))
+					}
+				}
+				continue
 			}
 			_, k := mulChain(other)
 			for _, ch := range charsOf(b.Block()) {
